@@ -217,6 +217,9 @@ func scenarios(tier string) []scen {
 		{Name: "seed redirects to an excluded host (terminal redirection)", Seeds: []string{H + "/moved"}, Nodes: []world.Node{{URL: H + "/moved", Kind: "redirect", Location: "http://excluded.example/x"}}},
 		world.MkSite("page+asset redirecting to an excluded host", "page", []string{"redirEx", "bin"}),
 		{Name: "seed answers 429 for good", Seeds: []string{H + "/limited"}, Nodes: []world.Node{{URL: H + "/limited", Kind: "status", Code: 429}}},
+		// framings of a body that is not kept for extraction: with and without a Content-Length, past the sniffed 2 KiB
+		{Name: "page+9 KiB image with and without Content-Length", Seeds: []string{H + "/page"}, Nodes: []world.Node{page(H+"/page", H+"/big.png", H+"/bigc.png"),
+			{URL: H + "/big.png", Kind: "bigbin"}, {URL: H + "/bigc.png", Kind: "bigbin-chunked"}}},
 		{Name: "two seeds", Seeds: []string{H + "/p1", H + "/p2"}, Nodes: []world.Node{page(H+"/p1", H+"/a.png"), page(H+"/p2", H+"/b.png"), {URL: H + "/a.png", Kind: "bin"}, {URL: H + "/b.png", Kind: "bin"}}},
 	}
 	for _, d := range defs {
@@ -321,7 +324,7 @@ func main() {
 		"states": total.States, "transitions": total.Transitions, "traces_validated_against_impl": total.Executions,
 		"samples": []any{total.Sample}, "exhaustive": total.Exhaustive, "scenarios": len(ss), "distinct_outcomes": len(outcomes),
 		"per_scenario": per,
-		"explanation": "part A (ordering): real pipeline on fake sites incl. responses the real discard hook chain rejects (429, 403+cf-mitigated) and retried failures; the WARC write of every response is its own scheduled thread started at body close; every schedule with at most P deviations plus at most one slow write (a write that takes 5 virtual minutes: F<=1); oracle at each finish message: every accepted response fetched for the seed has been written, no rejected response is ever written",
+		"explanation":  "part A (ordering): real pipeline on fake sites incl. responses the real discard hook chain rejects (429, 403+cf-mitigated) and retried failures; the WARC write of every response is its own scheduled thread started at body close; every schedule with at most P deviations plus at most one slow write (a write that takes 5 virtual minutes: F<=1); oracle at each finish message: every accepted response fetched for the seed has been written, no rejected response is ever written",
 	}, []string{
 		"the fake writer signals feedback only after marking the response written (that the real library does so after flushing the record is decided by part B on the real writer)",
 		"the fake writer writes what the real hook chain (discard.NewBuilder().AddDefaultHooks()) lets through; whether the policy accepts a response is computed independently from --warc-discard-status and the cf-mitigated header",
